@@ -347,10 +347,27 @@ def MaskData.realT (m : MaskData) : B :=
   | none => []
 
 /-- `if self.flags.parameters_applied and self.parameters:` -/
-def MaskData.paramsT (m : MaskData) : B :=
-  match m.flags.parametersApplied, m.parameters with
+def maskParamsT (applied : Bool) (ps : Option MaskParameters) : B :=
+  match applied, ps with
   | true, some q => q.encT
   | _, _ => []
+
+def maskParamsFits (applied : Bool) (ps : Option MaskParameters) : Prop :=
+  match applied, ps with
+  | true, some q => q.Fits
+  | _, _ => True
+
+instance (applied : Bool) (ps : Option MaskParameters) : Decidable (maskParamsFits applied ps) := by
+  unfold maskParamsFits; cases applied <;> cases ps <;> simp only <;> exact inferInstance
+
+def realFits : Option MaskReal → Prop
+  | some r => r.Fits
+  | none => True
+
+instance (r : Option MaskReal) : Decidable (realFits r) := by
+  cases r <;> simp only [realFits] <;> exact inferInstance
+
+def MaskData.paramsT (m : MaskData) : B := maskParamsT m.flags.parametersApplied m.parameters
 
 def MaskData.unpaddedT (m : MaskData) : B := m.fixedT ++ m.realT ++ m.paramsT
 
@@ -361,12 +378,9 @@ def MaskData.encT (m : MaskData) : B := lenBlockT 0 4 1 m.bodyT
 
 def MaskData.Fits (m : MaskData) : Prop :=
   FitsI32 m.top ∧ FitsI32 m.left ∧ FitsI32 m.bottom ∧ FitsI32 m.right ∧ FitsU 1 m.backgroundColor ∧
-  (match m.real with | some r => r.Fits | none => True) ∧
-  (match m.flags.parametersApplied, m.parameters with | true, some q => q.Fits | _, _ => True)
+  realFits m.real ∧ maskParamsFits m.flags.parametersApplied m.parameters
 
-instance (m : MaskData) : Decidable m.Fits := by
-  unfold MaskData.Fits
-  cases m.real <;> cases m.flags.parametersApplied <;> cases m.parameters <;> simp only <;> exact inferInstance
+instance (m : MaskData) : Decidable m.Fits := by unfold MaskData.Fits; exact inferInstance
 
 def MaskData.bodyP (m : MaskData) : W :=
   let written := wBytes (i32T m.top ++ i32T m.left ++ i32T m.bottom ++ i32T m.right ++ beBytes 1 m.backgroundColor)
